@@ -579,6 +579,11 @@ CleanRunSucceeds ==
 DeleteExact ==
     (Finished /\ result[Rcv] # "ok" /\ (\E r \in Roles : result[r] = "stoppeddel")) => made = {}
 
+(* C10: a client that ends with "stopped and deleted" has not sent its exit message, so the server -- which  *)
+(* reports success only after that message -- cannot have ended successfully: the two never disagree in   *)
+(* this way, and with DeleteExact nothing the transfer made is left.                                       *)
+StopDelAgreed == (Finished /\ result["C"] = "stoppeddel") => (result["V"] # "ok" /\ made = {})
+
 (* C18: a pause during which the peer never waited a full time-out does not break the transfer *)
 ShortPauseCompletes ==
     (Finished /\ faults = 0 /\ Confirm /\ maxquiet < TimeoutTicks /\ \A r \in Roles : ~WasStopped(r))
